@@ -15,7 +15,7 @@ RULE = ('per-field exhaustive sweeps (every value of one field, the other fields
         'Non-trivial = at least one field in the upper half of its range (sweeps: chunk contains such '
         'values); distinct = distinct case hash.')
 RULE += '  Also: per-field dtypes mixed (u8/i8/i4/u4/big-endian), 2-D and bytes id arrays for unwrap_objid.'
-ASSUMPTIONS = ['objID arrays are int64 as the docstring requires; specObjID field arrays are int64 and also int32/uint32/uint64 (FITS columns are 32-bit; every field value fits); unwrap gets uint64 or strings',
+ASSUMPTIONS = ['objID field arrays are integer arrays of any width that holds the values (int64, and since D43 also int8..int32, unsigned, big-endian, mixed per field); specObjID field arrays are int64 and also int32/uint32/uint64 (FITS columns are 32-bit; every field value fits); unwrap gets uint64 or strings',
                'run2d strings are exactly vN_M_P with 5<=N<=6, 0<=M,P<=99 (documented form)',
                'scalar convention = every argument a Python int; array convention = every argument an array']
 
@@ -179,6 +179,22 @@ def obj_body(case):
     with judge('objid-array'):
         check(all(np.array_equal(arr[n], keep[n]) for n in arr), 'objid-modifies-its-input-arrays')
         check([int(x) for x in g] == exp, 'objid-scalar-vs-array', lambda: dict(rows=rows, got=[int(x) for x in g], want=exp))
+    # every field array in the narrowest (or a mixed) integer type that holds its values: photoObj tables store RUN as int16/int32,
+    # CAMCOL as uint8, FIELD and ID as int16 (D43: the fields were shifted in their own width and the upper bits silently lost)
+    def narrowest(vals, signed):
+        for dt in (('i1', 'i2', 'i4', 'i8') if signed else ('u1', 'u2', 'u4', 'u8')):
+            if np.iinfo(dt).min <= min(vals) and max(vals) <= np.iinfo(dt).max:
+                return dt
+    for label, pick in (('narrowest-signed', lambda v, i: narrowest(v, True)), ('narrowest-unsigned', lambda v, i: narrowest(v, False)),
+                        ('int32', lambda v, i: 'i4'), ('mixed', lambda v, i: ('>i4', 'u8', 'i4', narrowest(v, True), 'u4', 'i8', narrowest(v, False))[i])):
+        narr = {n: np.array([r[n] for r in rows], dtype=pick([r[n] for r in rows], i)) for i, (n, lo, hi, sh) in enumerate(OBJ_FIELDS)}
+        gn = call(sdss_objid, narr['run'], narr['camcol'], narr['field'], narr['objnum'], rerun=narr['rerun'],
+                  skyversion=narr['skyversion'], firstfield=narr['firstfield'])
+        with judge('objid-array-' + label):
+            check([int(x) for x in np.ravel(gn)] == exp, 'objid-narrow-integer-arrays-differ', lambda: dict(rows=rows, got=[int(x) for x in np.ravel(gn)], want=exp,
+                                                                                                      dtypes={n: str(a.dtype) for n, a in narr.items()}))
+            check(np.asarray(gn).dtype == np.int64, 'objid-array-dtype', lambda: dict(got=str(np.asarray(gn).dtype), dtypes=label))
+    note_label('narrow-dtypes')
     n = len(exp)
     shp = (n, 1) if n % 2 else (2, n // 2)
     for label, ids in (('int64', np.array(exp, dtype=np.int64)), ('str', np.array([str(e) for e in exp])),
